@@ -761,6 +761,13 @@ def main(argv):
         return 0
     except ToolError as e:
         log("TOOL-ERROR:", e)
+        if ctx.violations:
+            # violations reproduced before a later stage broke down stand: the verdict comes from the real code
+            ctx.notes.append("a later stage ended with a tool error: %s" % str(e)[:300])
+            write_evidence(ctx, rule=PROPS[prop].get("rule", ""), assumptions=PROPS[prop].get("assumptions", ()))
+            for cl, path in ctx.violations[:3]:
+                log("VIOLATION property=%s replay=%s clause=%s" % (prop, path, cl))
+            return 1
         return 2
     except subprocess.TimeoutExpired as e:
         log("TOOL-ERROR: timeout", e)
